@@ -27,7 +27,7 @@ inline Quad quadOf(const Rotation& R, const Vec3& w) {
     Quad q;
     for (int i = 0; i < 3; ++i) for (int j = 0; j < 3; ++j) {
         LD s = 0;
-        for (int k = 0; k < 3; ++k) s += (LD)R(i, k) * (LD)w[k] * (LD)R(j, k);
+        for (int k = 0; k < 3; ++k) s += (LD)R.asMat33()(i, k) * (LD)w[k] * (LD)R.asMat33()(j, k);
         q.m[i][j] = s;
     }
     return q;
